@@ -11,7 +11,15 @@ structure Token where
   prec : Int            -- lexical precedence: `token(prec(p, …))`
   isString : Bool       -- specified as a String (true) or a RegExp (false)
   immediate : Bool := false   -- `token.immediate(…)`: recognised only when no extras precede it
+  /-- precedence INSIDE the token: `token(prec(p0, choice(prec(p1, r1), r2, …)))` as the list of
+  alternatives with the precedence of their characters (empty = the whole token has precedence `prec`);
+  `re` is then the alternation of the `r_j`, `prec` = `p0` is the precedence of the completed token -/
+  alts : List (Int × Regex) := []
   deriving Repr, Inhabited
+
+/-- a token without inner precedences -/
+def Token.mk4 (re : Regex) (prec : Int) (isString immediate : Bool) : Token :=
+  { re := re, prec := prec, isString := isString, immediate := immediate }
 
 /-- a candidate: token index (= position of the rule in the grammar) and match length (≥ 1) -/
 abbrev Cand := Nat × Nat
@@ -105,6 +113,44 @@ def scan (toks : List Token) (valid : Nat → Bool) :
 def lexScan (toks : List Token) (valid : Nat → Bool) (input : List Nat) : Option Cand :=
   scan toks valid input (toks.map (·.re)) 0 none none
 
+/-! ## the scan with precedences inside tokens
+
+The transitions of a token's alternative carry that alternative's precedence; the completed token has the
+token's own precedence.  For tokens without inner precedences this is `scan` (alternatives = the token). -/
+
+def altsOf (t : Token) : List (Int × Regex) := if t.alts.isEmpty then [(t.prec, t.re)] else t.alts
+
+/-- precedences of the live alternatives of the valid tokens -/
+def alivePrecs (toks : List Token) (valid : Nat → Bool) (rs : List (List Regex)) : List Int :=
+  (List.range toks.length).flatMap (fun i =>
+    if valid i then
+      ((altsOf (tokAt toks i)).zip (rs.getD i [])).filterMap (fun (a, r) => if r.isEmpty then none else some a.1)
+    else [])
+
+def maxInt : List Int → Option Int
+  | [] => none
+  | x :: xs => match maxInt xs with
+    | none => some x
+    | some m => some (max m x)
+
+def scanP (toks : List Token) (valid : Nat → Bool) :
+    (input : List Nat) → (rs : List (List Regex)) → (k : Nat) → (cur : Option Int) → (last : Option Cand) → Option Cand
+  | [], _, _, _, last => last
+  | c :: rest, rs, k, cur, last =>
+    let rs' := rs.map (fun alts => alts.map (deriv c))
+    match maxInt (alivePrecs toks valid rs') with
+    | none => last
+    | some m =>
+      if cut cur m then last
+      else
+        let comps := (List.range toks.length).filter (fun i => valid i && (rs'.getD i []).any nullable)
+        match bestOf toks (comps.map (fun i => (i, k + 1))) with
+        | some b => scanP toks valid rest rs' (k + 1) (some (tokAt toks b.1).prec) (some b)
+        | none => scanP toks valid rest rs' (k + 1) none last
+
+def lexScanP (toks : List Token) (valid : Nat → Bool) (input : List Nat) : Option Cand :=
+  scanP toks valid input (toks.map (fun t => (altsOf t).map (·.2))) 0 none none
+
 /-! ## tokenizing with extras skipped -/
 
 def skipExtras (isExtra : Nat → Bool) : List Nat → List Nat
@@ -155,6 +201,21 @@ def withKeywords (main kw : List Nat → Option Cand) (word : Nat) (input : List
     if i = word then
       match kw input with
       | some (k, m) => if m = n then some (k, n) else some (i, n)
+      | none => some (i, n)
+    else some (i, n)
+  | none => none
+
+/-- Keyword extraction in a parse state where not every keyword is valid: the keyword lexer `kw`
+contains ALL keywords of the grammar; its answer replaces the word token when it covers the whole
+word AND the keyword is acceptable in the state (`ok` = valid there, or a reserved word there).
+A reserved keyword that is not valid is still returned — the parser then reports an error instead of
+reading an identifier. -/
+def withKeywordsIn (main kw : List Nat → Option Cand) (word : Nat) (ok : Nat → Bool) (input : List Nat) : Option Cand :=
+  match main input with
+  | some (i, n) =>
+    if i = word then
+      match kw input with
+      | some (k, m) => if m = n ∧ ok k = true then some (k, n) else some (i, n)
       | none => some (i, n)
     else some (i, n)
   | none => none
